@@ -70,6 +70,11 @@ def hier_case(draw):
                               rates=st.one_of(st.sampled_from([0.5, 1.0, 2.0]), st.floats(0.1, 3.0, allow_nan=False))))
     c['tcount'] = 21
     c['rho'] = draw(st.sampled_from([0.01, 0.05, 0.1, 0.25, 0.5, 0.6]))
+    if draw(st.integers(0, 3)) == 0:
+        c['rho_default'] = True          # every wrapper is called without rho: documented default 1/N
+        c['rho'] = 1.0 / len(c['gc']['nodes'])
+    else:
+        c.pop('rho_default', None)
     return c
 
 
@@ -84,7 +89,7 @@ def prop_hier(case):
         R = outs['EBCM_from_graph'][3]
         attack = (R[-1] + outs['EBCM_from_graph'][2][-1]) / ic.N
         nt = 0.05 <= attack <= 0.95 and len(ic.Ks) >= 2
-    return Result(fails, nontrivial=nt, classes=['>=2-degrees'] if len(ic.Ks) >= 2 else ['regular'])
+    return Result(fails, nontrivial=nt, classes=(['>=2-degrees'] if len(ic.Ks) >= 2 else ['regular']) + (['rho-default'] if case.get('rho_default') else []))
 
 
 def uncorrelated_Pnk(ic):
@@ -154,7 +159,7 @@ def regular_case(draw):
     tau = draw(st.one_of(st.sampled_from([0.5, 1.0, 2.0]), st.floats(0.1, 3.0, allow_nan=False)))
     T = min(draw(st.sampled_from([1.0, 3.0, 10.0])), 3.0 / (tau * d))
     return {'entry': 'x', 'gc': gc, 'mode': 'rho', 'tau': tau, 'gamma': draw(st.one_of(st.sampled_from([0.5, 1.0]), st.floats(0.1, 3.0, allow_nan=False))),
-            'rho': draw(st.sampled_from([0.01, 0.05, 0.1, 0.25, 0.5, 0.6])), 'p': 0.5, 'tmin': 0, 'tmax': T, 'tcount': 21, 'shift': draw(st.sampled_from([0, 0, -1.5, 2.0, 3.25])),
+            'rho': draw(st.sampled_from([0.01, 0.05, 0.1, 0.25, 0.5, 0.6, 0, 0.0])), 'p': 0.5, 'tmin': 0, 'tmax': T, 'tcount': 21, 'shift': draw(st.sampled_from([0, 0, -1.5, 2.0, 3.25])),
             'dtmin': 0, 'dtmax': 3, 'I0': [], 'R0': [], 'model': draw(st.sampled_from(['SIS', 'SIR'])), 'd': d,
             'nodelist_perm': (list(draw(st.permutations(list(range(len(gc['nodes'])))))) if draw(st.booleans()) else None)}
 
